@@ -110,7 +110,19 @@ RULE = (
     "containers are compared. outputs case = (builtin scheme, method): "
     "optimize() + create_result() on a real Optimizer, every output held over two more evaluations (live at hand-out / still the "
     "container's object / changed vs model provenance / aliased); every penalty vector of every walk is held until the walk ends; "
-    "the first Result is held over the second optimize(). thread case = (builtin scheme, NUMBA_NUM_THREADS). A case is "
+    "the first Result is held over the second optimize(). non-finite walk case (ORACLE ONLY, the model has no non-finite values) = "
+    "(builtin or random scheme, optionally one positive free parameter declared non-negative by the caller, pool of 4 finite "
+    "vectors + 1-3 vectors with one or two NON-FINITE entries: a log-space entry of a non-negative parameter in (709.8, 5000) "
+    "(exp overflows) or below -746 (exp underflows to 0), or NaN / +inf / -inf; walk = random ids + for every non-finite vector "
+    "[finite a, it, finite b != a, it, finite]): the outcome of every evaluation (penalty vector, NaN-aware equality, or the type "
+    "of the exception) equals the outcome on a fresh optimiser at that vector. thread case = (builtin scheme, NUMBA_NUM_THREADS). "
+    "builtin scheme 'baseline-mcscale' = a parameter-independent megacomplex matrix (baseline) under a megacomplex_scale that is "
+    "not a power of two, next to an unscaled baseline on a model axis of the same length (all streams). history case (oracle "
+    "only, no model) = (scaled builtin scheme of _c10_schemes.HISTORY_NAMES, walk length n drawn from the scheme's range — 330-420 "
+    "evaluations for 'baseline-mcscale', enough for a factor 0.1 per evaluation to leave the double range, 40-60 for the linked / "
+    "unlinked two-dataset schemes with a dataset scale —, walk seed, relative step): penalty and result datasets at the initial "
+    "vector after the walk vs the first evaluation, vs a new optimiser of the used process, vs a FRESH process started before "
+    "anything was evaluated (penalties and optimize() digests), then optimize() twice + on a freshly built scheme. A case is "
     "non-trivial when at least one evaluation completed after a different vector or an interrupted evaluation; distinct = "
     "distinct (scheme, vectors, operations)."
 )
@@ -1243,6 +1255,155 @@ def in_process_penalties(names):
 
 
 # ------------------------------------------------------------------------------------------
+# history length / process state: long walks on scaled schemes, fresh-process references
+# ------------------------------------------------------------------------------------------
+def start_history_children(ck):
+    """one FRESH process (no evaluation before) that evaluates and optimises the schemes of the history stream"""
+    names = list(builtin.HISTORY_NAMES)
+    return names, start_child(1, names, 1, names)
+
+
+def run_history_case(ck, case, fresh_process=None):
+    """case = {"kind": "history", "name": builtin scheme, "n": number of evaluations of the random walk, "seed": seed of the
+    walk, "rel": relative step}.  Oracle only (the model's walks quantify over the same histories; here their LENGTH is the
+    input: hundreds of evaluations, so state that survives an evaluation and is multiplied / accumulated once per evaluation
+    leaves the double range): the penalty vector and the result datasets at the initial vector after the walk are bit-equal
+    to those of the first evaluation of this optimiser, of a new optimiser of this (no longer fresh) process and of a FRESH
+    process (`fresh_process` = (penalty digest, optimize digest) of a child started before anything was evaluated);
+    optimize() of the scheme after the walk is bit-equal to that of the fresh process"""
+    import random
+
+    from harness.props import _c10_child as child
+
+    name, n, rel = case["name"], int(case["n"]), float(case.get("rel", 0.05))
+    ref = {"kind": "builtin", "name": name}
+    wrng = random.Random(int(case["seed"]))
+    clean = True
+    with warnings.catch_warnings():
+        warnings.simplefilter("ignore")
+        scheme = build_scheme(ref)
+        before = scheme_snapshot(scheme)
+        opt = make_optimizer(scheme)
+        labels, x0, lo, hi = free_vector(scheme)
+        INJ.reset(None)
+
+        def evaluate(o, x):
+            try:
+                return np.array(o.objective_function(np.array(x, dtype=float)), dtype=float)
+            except Exception as e:  # noqa: BLE001
+                return f"{type(e).__name__}: {e}"[:160]
+
+        def same(a, b):
+            return isinstance(a, np.ndarray) and isinstance(b, np.ndarray) and a.shape == b.shape and a.tobytes() == b.tobytes()
+
+        def describe(a, b):
+            if isinstance(a, str) or isinstance(b, str):
+                return f"{a if isinstance(a, str) else 'a penalty vector'} vs {b if isinstance(b, str) else 'a penalty vector'}"
+            return _describe_penalty_diff(a, b) + (f"; cost {0.5 * float(a @ a):.6e} vs {0.5 * float(b @ b):.6e}" if a.shape == b.shape else "")
+
+        first = evaluate(opt, x0)
+        first_result = None
+        if isinstance(first, np.ndarray):
+            try:
+                first_result = result_digest(opt)
+            except Exception:  # noqa: BLE001 — result creation broken even at the first evaluation: not C10
+                first_result = None
+        raised = 0
+        for _ in range(n):
+            x = x0 * (1.0 + rel * np.array([wrng.gauss(0.0, 1.0) for _ in x0])) + np.array([wrng.choice([0.0, 0.0, 0.004]) for _ in x0])
+            if isinstance(evaluate(opt, np.minimum(np.maximum(x, lo), hi)), str):
+                raised += 1
+        ck.count(f"history:evaluations:{'<100' if n < 100 else '100-299' if n < 300 else '>=300'}")
+        if raised:
+            ck.count("history:evaluation-raised", raised)
+        late = evaluate(opt, x0)
+        ck.oracle_evals += 1
+        if not same(first, late):
+            ck.violation("penalty-drifts-with-history-length", f"scheme {name}: the penalty at the initial vector after a walk of {n} "
+                         f"evaluations differs from the first evaluation of the same optimiser: {describe(late, first)}", case)
+            clean = False
+        if clean and first_result is not None:
+            try:
+                late_result = result_digest(opt)
+            except Exception as e:  # noqa: BLE001
+                late_result = {"error": f"{type(e).__name__}: {e}"[:160]}
+            if late_result != first_result:
+                bad = sorted(k for k in set(first_result) | set(late_result) if late_result.get(k) != first_result.get(k))
+                ck.violation("result-data-drifts-with-history-length", f"scheme {name}: the result datasets at the initial vector after "
+                             f"a walk of {n} evaluations differ from those after the first evaluation: {bad[:8]}", case)
+                clean = False
+        if clean:
+            # "whether or not the process is fresh": a NEW optimiser of this process, which has made n+2 evaluations
+            opt2 = make_optimizer(build_scheme(ref))
+            new = evaluate(opt2, x0)
+            ck.oracle_evals += 1
+            if not same(first, new):
+                ck.violation("new-optimizer-inherits-process-state", f"scheme {name}: the first evaluation of a new optimiser, built "
+                             f"after {n + 2} evaluations of another optimiser of this process, differs from that optimiser's first "
+                             f"evaluation at the same vector: {describe(new, first)}", case)
+                clean = False
+            elif first_result is not None:
+                try:
+                    new_result = result_digest(opt2)
+                except Exception as e:  # noqa: BLE001
+                    new_result = {"error": f"{type(e).__name__}: {e}"[:160]}
+                if new_result != first_result:
+                    bad = sorted(k for k in set(first_result) | set(new_result) if new_result.get(k) != first_result.get(k))
+                    ck.violation("new-optimizer-inherits-process-state", f"scheme {name}: the result datasets of a new optimiser, built "
+                                 f"after {n + 2} evaluations of another optimiser of this process, differ from that optimiser's after "
+                                 f"its first evaluation: {bad[:8]}", case)
+                    clean = False
+        diff = snapshot_diff(before, scheme_snapshot(scheme))
+        if diff:
+            ck.violation("scheme-mutated-by-evaluations:history", f"a walk of {n} evaluations changed the caller's scheme: {diff}", case)
+            clean = False
+        if clean and fresh_process is not None:
+            pen_fresh, opt_fresh = fresh_process
+            try:
+                pen_here = child.penalties_of(name)
+            except Exception as e:  # noqa: BLE001
+                pen_here = f"{type(e).__name__}: {e}"[:160]
+            ck.oracle_evals += 1
+            if pen_fresh is not None and pen_here != pen_fresh:
+                ck.violation("penalty-differs-from-fresh-process", f"scheme {name}: after {n + 3} evaluations in this process the penalty "
+                             "vectors of a new optimiser differ from those a fresh process computes at the same vectors "
+                             f"({pen_here} vs {pen_fresh})", case)
+                clean = False
+            if clean and opt_fresh is not None:
+                try:
+                    opt_here = child.optimize_of(name)
+                except Exception as e:  # noqa: BLE001
+                    opt_here = f"{type(e).__name__}: {e}"[:160]
+                ck.oracle_evals += 1
+                if opt_here != opt_fresh:
+                    ck.violation("optimize-differs-from-fresh-process", f"scheme {name}: optimize() after {n + 7} evaluations in this "
+                                 "process differs from optimize() of the same scheme in a fresh process", case)
+                    clean = False
+    ck.case(("history", json.dumps(case, sort_keys=True)), nontrivial=isinstance(late, np.ndarray) and n > 0)
+    return clean
+
+
+def history_stream(ck, child_proc=None):
+    """history length / process state stream (see RULE): for every scheme of `builtin.HISTORY_NAMES` a random walk whose
+    length is drawn from the scheme's range, then optimize() twice (+ a freshly built scheme) on the used process"""
+    fresh = {}
+    if child_proc is not None:
+        names, proc = child_proc
+        got = collect_children(ck, [("history-fresh", proc)], timeout=600)["history-fresh"]
+        fresh = {nme: (got["penalties"][nme][0], got["optimize"].get(nme)) for nme in names}
+    for name, (lo_n, hi_n) in builtin.HISTORY_NAMES.items():
+        case = {"kind": "history", "name": name, "n": ck.rng.randint(lo_n, hi_n), "seed": ck.rng.randrange(2 ** 31),
+                "rel": ck.rng.choice([0.02, 0.05, 0.08])}
+        ok = run_history_case(ck, case, fresh_process=fresh.get(name))
+        ck.count("history-walk")
+        if ok and name not in builtin.BOUNDED:
+            run_optimize_case(ck, {"kind": "optimize", "scheme": {"kind": "builtin", "name": name, "max_nfev": 3,
+                                                                  "method": ck.rng.choice(METHODS)}})
+        if ck.violations:
+            return
+
+
+# ------------------------------------------------------------------------------------------
 # corpus / witnesses
 # ------------------------------------------------------------------------------------------
 def d23_witness(ck):
@@ -1347,6 +1508,198 @@ def exhaustive_pairs(ck, ref, batch):
     ck.extra.setdefault("exhaustive_pairs", {})[ref["name"]] = {"operations": len(ops), "histories": n}
 
 
+# ------------------------------------------------------------------------------------------
+# walks over NON-FINITE vectors (oracle only): exp overflow of a log-space entry, NaN / +-inf entries
+# ------------------------------------------------------------------------------------------
+NF_FRESH_CACHE: dict = {}
+
+
+def _nf_dec(vec):
+    """vectors of these cases are JSON-able: finite entries are floats, the others the strings 'nan' / 'inf' / '-inf'"""
+    return np.array([float(v) for v in vec], dtype=float)
+
+
+def _nf_enc(vec):
+    return [float(v) if np.isfinite(v) else str(float(v)) for v in vec]
+
+
+def _nf_optimizer(case):
+    """a fresh scheme + Optimizer; the caller declared the parameters `log_space` non-negative before Optimizer(scheme)"""
+    scheme = build_scheme(case["scheme"])
+    for label in case.get("log_space") or []:
+        scheme.parameters.get(label).non_negative = True
+    return scheme, make_optimizer(scheme)
+
+
+def _nf_outcome(opt, x):
+    """('value', penalty) or ('raised', exception type name) of ONE objective evaluation"""
+    INJ.reset(None)
+    try:
+        return "value", np.array(opt.objective_function(np.array(x, dtype=float)), dtype=float)
+    except Exception as e:  # noqa: BLE001 — the kind of the outcome is what is compared
+        import traceback
+
+        names = [fr.name for fr in traceback.extract_tb(e.__traceback__)]
+        return "raised", type(e).__name__, "update_parameter_expression" in names
+
+
+def _nf_fresh(ck, case, x):
+    """outcome of the evaluation at x on an optimiser that has seen no other vector (built once per scheme and vector)"""
+    key = (json.dumps([case["scheme"], case.get("log_space")], sort_keys=True, default=str), tuple(float(v).hex() for v in x))
+    if key not in NF_FRESH_CACHE:
+        if len(NF_FRESH_CACHE) > 400:
+            NF_FRESH_CACHE.clear()
+        NF_FRESH_CACHE[key] = _nf_outcome(_nf_optimizer(case)[1], x)
+        ck.oracle_evals += 1
+    return NF_FRESH_CACHE[key]
+
+
+def _nf_same(a, b):
+    if a[0] != b[0]:
+        return False
+    if a[0] == "raised":
+        return a[1] == b[1]
+    return a[1].shape == b[1].shape and np.array_equal(a[1], b[1], equal_nan=True)
+
+
+def _nf_describe(o):
+    if o[0] == "raised":
+        return f"raises {o[1]}"
+    if not np.all(np.isfinite(o[1])):
+        return f"returns a penalty of length {o[1].size} with {int(np.sum(~np.isfinite(o[1])))} non-finite entries"
+    return f"returns a penalty of length {o[1].size} with cost {0.5 * float(np.sum(o[1] ** 2))!r}"
+
+
+def _nf_class(labels, log_space, x):
+    """class of a vector: which kind of non-finite entry it has after undoing the log transformation"""
+    kinds = set()
+    for label, v in zip(labels, x):
+        if np.isnan(v):
+            kinds.add("nan")
+        elif label in log_space and v > 709.782712893384:
+            kinds.add("exp-overflow")
+        elif np.isinf(v) and not (label in log_space and v < 0):
+            kinds.add("inf")
+        elif label in log_space and v < -745.2:
+            kinds.add("exp-underflow")
+    return "+".join(sorted(kinds)) or "finite"
+
+
+def make_nonfinite_case(ck, ref):
+    """(scheme, parameters the caller declares non-negative, pool of finite vectors + vectors with a non-finite entry, walk)"""
+    rng = ck.rng
+    with warnings.catch_warnings():
+        warnings.simplefilter("ignore")
+        try:
+            scheme = build_scheme(ref)
+            labels, x0, lo, hi = free_vector(scheme)
+            log_space = []
+            already = [lb for lb in labels if scheme.parameters.get(lb).non_negative]
+            cand = [lb for lb, v, a in zip(labels, x0, lo) if lb not in already and v > 0 and (a == -np.inf or a > 0)]
+            if cand and (not already or rng.random() < 0.5):
+                log_space = [rng.choice(cand)]
+            case = {"kind": "nonfinite-walk", "scheme": ref, "log_space": log_space}
+            scheme, opt = _nf_optimizer(case)
+        except Exception as e:  # noqa: BLE001
+            ck.count(f"construct-error:{type(e).__name__}")
+            return None
+    labels, x0, lo, hi = free_vector(scheme)
+    if not len(x0):
+        return None
+    logs = set(already) | set(log_space)
+    finite = [np.array(v, dtype=float) for v in vector_pool(rng, ref, scheme, 3)[:3]]
+    # finite vectors that differ from the initial one in EVERY entry (so a kept-back entry is never the initial value)
+    moved = x0 * (1.0 + rng.choice([0.02, 0.05, -0.04])) + np.where(x0 == 0, 0.003, 0.0)
+    finite.append(np.minimum(np.maximum(moved, lo), hi))
+    with warnings.catch_warnings(), np.errstate(all="ignore"):
+        warnings.simplefilter("ignore")
+        # finite vectors at which the evaluation raises (expr-forward: 1/$aux.b) are the business of the ordinary walks (D26)
+        finite = [v for n, v in enumerate(finite) if n == 0 or _nf_fresh(ck, case, v)[0] == "value"]
+    if len(finite) < 2:
+        return None
+    pool, nf_ids = [v.copy() for v in finite], []
+    for _ in range(rng.randint(1, 3)):
+        v = finite[rng.randrange(len(finite))].copy()
+        for i in rng.sample(range(len(v)), 1 if rng.random() < 0.75 else min(2, len(v))):
+            if labels[i] in logs and rng.random() < 0.7:
+                # a far too long step in log space: exp overflows (or underflows to exactly zero)
+                v[i] = rng.choice([rng.uniform(709.8, 720.0), rng.uniform(720.0, 5000.0), 800.0, -rng.uniform(746.0, 2000.0)])
+            else:
+                v[i] = rng.choice([np.nan, np.nan, np.inf, -np.inf])
+        nf_ids.append(len(pool))
+        pool.append(v)
+    fin_ids = list(range(len(finite)))
+    seq = [rng.randrange(len(pool)) for _ in range(rng.randint(3, 6))]
+    for n in nf_ids:
+        # every non-finite vector is evaluated after two DIFFERENT finite ones (two histories), then a finite one follows
+        a, b = rng.sample(fin_ids, 2)
+        seq += [a, n, b, n, rng.choice(fin_ids)]
+    seq.append(0)
+    case.update({"vectors": [_nf_enc(v) for v in pool], "seq": seq})
+    return case
+
+
+def run_nonfinite_walk(ck, case):
+    """ORACLE ONLY (the Lean model has no non-finite values): the outcome of every evaluation of the walk — the penalty
+    vector, or the type of the exception it ends with — is the outcome on a fresh optimiser of the same scheme at that vector"""
+    pool = [_nf_dec(v) for v in case["vectors"]]
+    clean = True
+    with warnings.catch_warnings(), np.errstate(all="ignore"):
+        warnings.simplefilter("ignore")
+        try:
+            scheme, opt = _nf_optimizer(case)
+            before = scheme_snapshot(scheme, ignore_svd=bool(scheme.add_svd))
+        except Exception as e:  # noqa: BLE001
+            ck.count(f"construct-error:{type(e).__name__}")
+            return True
+        labels = list(opt._free_parameter_labels)
+        logs = {lb for lb in labels if scheme.parameters.get(lb).non_negative}
+        classes = [_nf_class(labels, logs, x) for x in pool]
+
+        seen_nonfinite = None
+        for k, i in enumerate(case["seq"]):
+            walked = _nf_outcome(opt, pool[i])
+            fresh = _nf_fresh(ck, case, pool[i])
+            ck.count(f"nonfinite-walk:{classes[i]}:{walked[0] if walked[0] == 'value' else walked[1]}")
+            if classes[i] != "finite":
+                seen_nonfinite = classes[i]
+            if not _nf_same(walked, fresh):
+                where = classes[i] if classes[i] != "finite" else f"finite-after-{seen_nonfinite}"
+                key = f"outcome-depends-on-history:{where}"
+                if walked[0] == "raised" and walked[2] and fresh[0] == "value":
+                    key = "stale-expression-raise"      # D26: the expression refresh raises on values left by an earlier vector
+                ck.violation(key,
+                             f"evaluation {k + 1} of the walk, at vector {i} = {case['vectors'][i]} (free parameters {labels}, "
+                             f"log-space {sorted(logs)}; class {classes[i]}): after the walk it {_nf_describe(walked)}, on a fresh "
+                             f"optimiser of the same scheme it {_nf_describe(fresh)}",
+                             {**case, "seq": case["seq"][: k + 1]})
+                clean = False
+                break
+        diff = snapshot_diff(before, scheme_snapshot(scheme, ignore_svd=bool(scheme.add_svd)))
+        if diff:
+            ck.violation("scheme-mutated-by-nonfinite-evaluations",
+                         f"evaluations at non-finite vectors changed the caller's scheme: {diff}", dict(case))
+            clean = False
+    ck.case(("nonfinite-walk", json.dumps(case, sort_keys=True, default=str)),
+            nontrivial=any(c != "finite" for c in classes) and len(case["seq"]) > 1)
+    return clean
+
+
+def nonfinite_stream(ck, n_spec, stop_at_first=False):
+    """every builtin scheme (expr-nonneg twice: it has non-negative parameters of its own) + a few random specs"""
+    refs = [{"kind": "builtin", "name": n} for n in builtin.NAMES] + [{"kind": "builtin", "name": "expr-nonneg"}]
+    refs += spec_refs(ck, n_spec)
+    t0 = time.time()
+    for ref in refs:
+        case = make_nonfinite_case(ck, ref)
+        if case is None:
+            continue
+        run_nonfinite_walk(ck, case)
+        if stop_at_first and ck.violations:
+            break
+    ck.extra["nonfinite_s"] = round(ck.extra.get("nonfinite_s", 0) + time.time() - t0, 1)
+
+
 def run(ck):
     t0 = time.time()
     # subprocesses run while the in-process work is done
@@ -1359,6 +1712,7 @@ def run(ck):
     # light children: only the scheme with two dataset groups, one evaluation, each under another string-hash seed
     for h in (range(4) if ck.quick else range(8)):
         procs.append((f"1#hash{h}", start_child(1, ["two-groups-nnls"], 1, [], hashseed=h)))
+    history_child = start_history_children(ck)
 
     # corpus first
     for c in core.load_corpus(PROP):
@@ -1392,6 +1746,8 @@ def run(ck):
         for name in ("unlinked-two-pen", "two-groups-nnls", "full-model"):
             exhaustive_pairs(ck, {"kind": "builtin", "name": name}, batch)
     compare_with_model(ck, batch)
+    # walks that contain vectors with a non-finite entry (oracle only)
+    nonfinite_stream(ck, ck.n(6, 30))
     ck.extra["walk_s"] = round(time.time() - t0, 1)
     ck.extra["walks"] = len(batch)
 
@@ -1441,6 +1797,10 @@ def run(ck):
             outputs_vs_model(ck, ref)
     ck.extra["optimize_s"] = round(time.time() - t0, 1)
 
+    # history length / process state (late: the process has made thousands of evaluations by now)
+    history_stream(ck, history_child)
+    ck.extra["history_s"] = round(time.time() - t0, 1)
+
     # threads
     results = collect_children(ck, procs, timeout=900 if ck.quick else 3000)
     results["in-process"] = {"penalties": {n: [v] for n, v in in_process_penalties(thread_names).items()}, "optimize": {},
@@ -1461,6 +1821,9 @@ def search(ck):
             run_walk(ck, case, use_model=False)
         if ck.violations:
             return
+    nonfinite_stream(ck, 10 if ck.quick else 40, stop_at_first=True)
+    if ck.violations:
+        return
     for name in builtin.NAMES:
         for m in METHODS:
             if m == "Levenberg-Marquardt" and name in builtin.BOUNDED:
@@ -1468,6 +1831,9 @@ def search(ck):
             run_optimize_case(ck, {"kind": "optimize", "scheme": {"kind": "builtin", "name": name, "method": m, "max_nfev": 3}})
             if ck.violations:
                 return
+    history_stream(ck, start_history_children(ck))
+    if ck.violations:
+        return
     # thread stress: many repetitions of the kernels under 16 threads against 1 thread
     names = list(builtin.NAMES)
     procs = [(str(t), start_child(t, names, 6, [])) for t in (1, 16)]
@@ -1481,10 +1847,17 @@ def replay(ck, case, from_corpus=False):
     kind = case.get("kind")
     if kind == "walk":
         run_walk(ck, case, use_model=False)
+    elif kind == "nonfinite-walk":
+        run_nonfinite_walk(ck, case)
     elif kind == "optimize":
         run_optimize_case(ck, case)
     elif kind == "outputs":
         outputs_vs_model(ck, case["scheme"])
+    elif kind == "history":
+        names, (p, req) = start_history_children(ck)
+        got = collect_children(ck, [("history-fresh", (p, req))], timeout=600)["history-fresh"]
+        nme = case["name"]
+        run_history_case(ck, case, fresh_process=(got["penalties"][nme][0], got["optimize"].get(nme)) if nme in names else None)
     elif kind == "threads":
         names = [case["name"]]
         ts = case.get("threads", [1, 16])
